@@ -64,6 +64,45 @@ def ondisk_sync_lemma(prog, E):
     return missing
 
 
+def _mutable_object_class(prog, K):
+    """a repo class whose objects hold an array / list / dict of their own"""
+    tf = typed_fields(prog, K.name) if K is not None else {}
+    return bool(tf) or (K is not None and any(isinstance(n, _ast.Call) and isinstance(n.func, _ast.Name) and n.func.id in ("array", "list", "dict", "bytearray")
+                                            for m in K.methods.values() for n in _ast.walk(m.node)))
+
+
+def _shares_operand_state(prog, cn, f):
+    """(field, value, how, event) when a combining method leaves in the receiver a mutable object that still belongs to the operand: the
+    operand's own container / object (no copy), or a SHALLOW copy - copy.copy(x), x.copy() - of an object whose class keeps its cells in
+    an inner array, which the copy then shares.  Slices, array(...) / list(...) rebuilds and deepcopy are copies"""
+    from ..walk import field_class
+    for p in paths(prog, cn, f):
+        if p.exit[0] != "return":
+            continue
+        for e in p.events:
+            if e.kind != "setfield" or e.base != SELF:
+                continue
+            if strip_epochs(p.fields.get((SELF, e.name), e.value)) != strip_epochs(e.value):
+                continue  # overwritten later on the path
+            v = strip_epochs(e.value)
+            how, src = None, v
+            if v[0] == "call" and (v[1] in (("ext", "copy", "copy"),) or (v[1][0] == "m" and v[1][2] in ("copy", "__copy__"))) :
+                src = v[2][0] if v[1][0] == "ext" and v[2] else (v[1][1] if v[1][0] == "m" else v)
+                how = "shallow"
+            if not (src[0] == "f" and root_of(src) == ("p", "second")):
+                continue
+            owner = prog.classes.get(cn)
+            K = prog.classes.get(field_class(prog, owner, src[2]) or "") if owner is not None else None
+            if how == "shallow":
+                if K is not None and _mutable_object_class(prog, K):
+                    return (e.name, nshow(v), f"holds a shallow copy of the operand's {K.name}, which shares its inner array", e)
+                continue
+            tf = typed_fields(prog, cn)
+            if K is not None or src[2] in tf:
+                return (e.name, nshow(v), "holds the operand's own object", e)
+    return None
+
+
 def check(prog, rep, tier):
     rep.extra["explanation"] = EXPL
     rep.rule("C19.query-pure", "a public query has an empty write effect on receiver, parameters and class state", floor=150)
@@ -89,9 +128,14 @@ def check(prog, rep, tier):
             rep.analysed(f, cn, 0)
             if name in BINARY_OPS and not f.prop:
                 pw = [e for e in eff if e[0] == "param:second" and not memo_effect(prog, cn, e)]
+                shared = _shares_operand_state(prog, cn, f)
                 if pw:
                     rep.bad("C19.operand-untouched", f"{cn}.{name}", f"write second.{pw[0][1]}",
                             f"the non-receiver operand is written: {fmt_eff(pw[0])}", pw[0][3].split("@")[-1])
+                elif shared:
+                    rep.bad("C19.operand-untouched", f"{cn}.{name}", f"receiver shares {shared[0]}",
+                            f"{name} leaves self.{shared[0]} = {shared[1]}: the receiver {shared[2]}, so every later update of the receiver is an update of the "
+                            "operand as well (and the other way round)", shared[3].where())
                 else:
                     rep.ok("C19.operand-untouched", f"{cn}.{name}")
             if not is_query:
@@ -361,6 +405,9 @@ def _memo_sound(prog, cn, g):
                     k = comp(x)
                     if k is not None and not comps_in(y):
                         keyparts[k] = y
+                    # len(<remembered value>) == n: the number of remembered values is part of the key
+                    if x[0] == "call" and x[1] == ("g", "len") and len(x[2]) == 1 and comp(x[2][0]) is not None and not comps_in(y):
+                        keyparts[("len", comp(x[2][0]))] = y
         if not keyparts or set(keyparts) & R:
             return False, "a remembered value is returned without comparing the remembered key"
         if template is not None and template[0] != keyparts:
@@ -375,6 +422,8 @@ def _memo_sound(prog, cn, g):
             continue
 
         def stored(k):
+            if k[0] == "len":
+                return _known_len(stored(k[1]))
             v = p.fields.get((SELF, k[0]))
             if v is None:
                 return None
@@ -382,17 +431,28 @@ def _memo_sound(prog, cn, g):
             if k[1] is None:
                 return v
             return v[1][k[1]] if v[0] == "tup" and 0 <= k[1] < len(v[1]) else None
+        key_problem = None
         for k, want in keyparts.items():
-            if stored(k) is None or canon(stored(k)) != canon(want):
-                return False, "a miss does not store the key it will be compared with"
+            if stored(k) is None or not _same_key(stored(k), want):
+                key_problem = "a miss does not store the key it will be compared with"
         vals = {k: stored(k) for k in R}
         if any(v is None for v in vals.values()):
-            return False, "a miss does not store the value a hit returns"
+            return False, key_problem or "a miss does not store the value a hit returns"
+        if key_problem:
+            # say the more specific thing when there is one: an input of the remembered value that no key test covers
+            have_ = set()
+            for want in keyparts.values():
+                have_ |= _inputs(want)
+            for v in vals.values():
+                loose_ = [n for n in _inputs(v) if n not in have_ and not (n[0] == "f" and (n[2] in written or n[2] not in unstable))]
+                if loose_:
+                    return False, f"the remembered value depends on {sorted(nshow(n) for n in loose_)}, which the key does not include: a later call with the same key returns a stale value"
+            return False, key_problem
 
         def subst(n):
             k = comp(n)
             return vals.get(k) if k in vals else None
-        if canon(mapx(hit_rv, subst)) != canon(strip_epochs(p.exit[1])):
+        if canon(_delist(mapx(hit_rv, subst))) != canon(_delist(strip_epochs(p.exit[1]))):
             return False, "a miss returns something other than what a hit on the stored entry returns"
         have = set()
         for want in keyparts.values():
@@ -402,6 +462,45 @@ def _memo_sound(prog, cn, g):
             if loose:
                 return False, f"the remembered value depends on {sorted(nshow(n) for n in loose)}, which the key does not include: a later call with the same key returns a stale value"
     return True, ""
+
+
+def _delist(v):
+    """list(x) is x, value for value, when x is a list already: the result of a hashing strategy (HashResultsT = List[int]) or another list(...)"""
+    inner = v
+    n = 0
+    while inner[0] == "call" and inner[1] == ("g", "list") and len(inner[2]) == 1 and not inner[3]:
+        inner = inner[2][0]
+        n += 1
+    if n and inner[0] == "call" and inner[1][0] == "v" and inner[1][1][0] == "f" and "hash" in inner[1][1][2]:
+        return inner
+    return v
+
+
+def _known_len(v):
+    """the length of a remembered list when it is known by contract: list(...) / tuple(...) of the result of a hashing strategy called
+    with depth d has d entries (a strategy returns exactly `depth` values - C18.exactly-depth for the shipped ones)"""
+    if v is None:
+        return None
+    v = strip_epochs(v)
+    while v[0] == "call" and v[1] in (("g", "list"), ("g", "tuple")) and len(v[2]) == 1:
+        v = v[2][0]
+    if v[0] == "call" and v[1][0] == "v" and v[1][1][0] == "f" and "hash" in v[1][1][2] and len(v[2]) == 2:
+        return v[2][1]
+    return None
+
+
+def _same_key(stored, want) -> bool:
+    """what a miss stores as the key compares equal to `want`: the value itself, an immutable snapshot of it (bytes(x) == x for every
+    bytes-like x), or a choice between such values"""
+    from ..expr import canon
+    stored, want = strip_epochs(stored), strip_epochs(want)
+    if canon(stored) == canon(want):
+        return True
+    if stored[0] == "call" and stored[1] == ("g", "bytes") and len(stored[2]) == 1:
+        return _same_key(stored[2][0], want)
+    if stored[0] == "phi":
+        return _same_key(stored[2], want) and _same_key(stored[3], want)
+    return False
 
 
 def _resolve_none_tests(e, q):
